@@ -528,6 +528,10 @@ read_notes(kdump_ctx_t *ctx, off_t off, size_t size)
 	struct fcache_chunk fch;
 	kdump_status ret;
 
+	ret = check_file_extent(ctx, 0, off, size, "ELF notes");
+	if (ret != KDUMP_OK)
+		return ret;
+
 	ret = flatmap_get_chunk(ctx->shared->flatmap, &fch, size, 0, off);
 	if (ret != KDUMP_OK)
 		return set_error(ctx, ret,
